@@ -2,8 +2,8 @@
 # tools/confirm_mutant.sh <Cxx> <n>: confirm an independently written change in its scratch worktree:
 # (1) the demonstration passes on the current /repo HEAD, (2) the change applies, builds, the existing
 # tests pass, (3) the demonstration fails with the change. Prints one JSON line.
-id=$1; n=$2; wt=/tmp/mut/$id; out=$wt/OUT
-export CARGO_TARGET_DIR=/tmp/mut/target CARGO_NET_OFFLINE=true RUST_BACKTRACE=0
+root=${MUT_ROOT:-/tmp/mut2}; id=$1; n=$2; wt=$root/$id; out=$wt/OUT
+export CARGO_TARGET_DIR=$root/target CARGO_NET_OFFLINE=true RUST_BACKTRACE=0
 head=$(git -C /repo rev-parse HEAD)
 git -C $wt checkout -q -- . ; git -C $wt checkout -q --detach $head 2>/dev/null
 rm -f $wt/crates/lib/tests/demo_* $wt/crates/cli/tests/demo_* 2>/dev/null
@@ -12,16 +12,16 @@ for f in $out/demo$n/*.rs; do
   b=$(basename $f .rs)
   if grep -q "gamedig_cli\|CARGO_BIN_EXE" $f; then mkdir -p $wt/crates/cli/tests; cp $f $wt/crates/cli/tests/; demos="$demos cli:$b"; else cp $f $wt/crates/lib/tests/; demos="$demos lib:$b"; fi
 done
-run_demos() { local ok=0; for d in $demos; do pkg=${d%%:*}; t=${d##*:}; if [ $pkg = cli ]; then p=gamedig_cli; else p=gamedig; fi; (cd $wt && cargo test --offline -q -p $p --test $t >/tmp/mut/demo_$id$n.log 2>&1) || ok=1; done; return $ok; }
+run_demos() { local ok=0; for d in $demos; do pkg=${d%%:*}; t=${d##*:}; if [ $pkg = cli ]; then p=gamedig_cli; else p=gamedig; fi; (cd $wt && cargo test --offline -q -p $p --test $t >$root/demo_$id$n.log 2>&1) || ok=1; done; return $ok; }
 run_demos; before=$?
-applies=0; (cd $wt && git apply $out/patch$n.diff 2>/tmp/mut/apply_$id$n.log) || { (cd $wt && git apply --3way $out/patch$n.diff 2>>/tmp/mut/apply_$id$n.log) || applies=1; }
+applies=0; (cd $wt && git apply $out/patch$n.diff 2>$root/apply_$id$n.log) || { (cd $wt && git apply --3way $out/patch$n.diff 2>>$root/apply_$id$n.log) || applies=1; }
 suite=2; after=2
 if [ $applies = 0 ]; then
   # the existing suite, without the demonstration files
-  mkdir -p /tmp/mut/hold_$id$n; mv $wt/crates/lib/tests/demo_* $wt/crates/cli/tests/demo_* /tmp/mut/hold_$id$n/ 2>/dev/null
-  (cd $wt && cargo test --offline -q --workspace --no-fail-fast >/tmp/mut/suite_$id$n.log 2>&1) && suite=0 || suite=1
-  for f in /tmp/mut/hold_$id$n/*.rs; do if grep -q "gamedig_cli\|CARGO_BIN_EXE" $f; then cp $f $wt/crates/cli/tests/; else cp $f $wt/crates/lib/tests/; fi; done
-  rm -rf /tmp/mut/hold_$id$n
+  mkdir -p $root/hold_$id$n; mv $wt/crates/lib/tests/demo_* $wt/crates/cli/tests/demo_* $root/hold_$id$n/ 2>/dev/null
+  (cd $wt && cargo test --offline -q --workspace --no-fail-fast >$root/suite_$id$n.log 2>&1) && suite=0 || suite=1
+  for f in $root/hold_$id$n/*.rs; do if grep -q "gamedig_cli\|CARGO_BIN_EXE" $f; then cp $f $wt/crates/cli/tests/; else cp $f $wt/crates/lib/tests/; fi; done
+  rm -rf $root/hold_$id$n
   run_demos; after=$?
 fi
 (cd $wt && git checkout -q -- . )
